@@ -27,6 +27,11 @@ def gen_program(rng):
 def run(ctx):
     # Tier B: Treiber.tla (push/pop with the hazard-pointer protocol, one label per atomic access, ghost abstract stack)
     vlib.model_check(ctx, "stack/TreiberMC.tla", "stack/Treiber_q.cfg", workers=4)
+    # Elimination.tla (collision slot with spin lock, published operation record and status word, over an abstract stack); refuted: seeded change C09
+    # (status read before the slot is locked), collision with an operation of the same kind
+    vlib.model_check_many(ctx, [dict(module_rel="stack/EliminationMC.tla", cfg_rel="stack/Elimination_q.cfg", workers=4),
+                                dict(module_rel="stack/EliminationMC.tla", cfg_rel="stack/Elimination_bad_statusbeforelock.cfg", workers=2, expect_violation="NoDup"),
+                                dict(module_rel="stack/EliminationMC.tla", cfg_rel="stack/Elimination_bad_nokindcheck.cfg", workers=2, expect_violation="Conservation")], par=3)
     progs = list(PROGRAMS) + [gen_program(ctx.rng) for _ in range(1 if ctx.quick() else 6)]
     jobs = make_jobs(ctx, "stack", VARIANTS, progs)
     vlib.run_jobs(ctx, jobs)
